@@ -39,8 +39,20 @@ def check(chk):
     # _execute arms
     exf = m.func('_ConcurrentExecutor._execute')
     s = src(exf)
-    chk.judge('args = (future, idx)' in s and 'callback=self._on_success, callback_args=args' in s and 'errback=self._on_error, errback_args=args' in s, 'C32.index', exf,
-              'callbacks registered with (future, idx)', 'callback arguments changed')
+    adds = [c for c in body_walk(exf) if isinstance(c, ast.Call) and isinstance(c.func, ast.Attribute) and c.func.attr == 'add_callbacks']
+    okcb = len(adds) == 1
+    if okcb:
+        def _one(v):
+            # a temporary standing for the argument tuple is followed one step (the names inside the tuple are what is compared)
+            if isinstance(v, ast.Name):
+                ds = [st for st in body_walk(exf) if isinstance(st, ast.Assign) and len(st.targets) == 1 and src(st.targets[0]) == v.id]
+                if len(ds) == 1:
+                    return src(ds[0].value)
+            return src(v)
+        kw = dict((k.arg, _one(k.value)) for k in adds[0].keywords if k.arg)
+        okcb = src(adds[0].func.value) == 'future' and kw.get('callback') == 'self._on_success' and kw.get('errback') == 'self._on_error' and \
+            kw.get('callback_args') == '(future, idx)' and kw.get('errback_args') == '(future, idx)' and not adds[0].args
+    chk.judge(okcb, 'C32.index', exf, 'callbacks registered with (future, idx)', 'callback arguments changed')
     puts = [n for n in body_walk(exf) if isinstance(n, ast.Call) and (src(n.func) == 'self._put_result' or (src(n.func) == 'self.session.submit' and n.args and src(n.args[0]) == 'self._put_result'))]
     good = len(puts) == 2 and all([src(a) for a in (p.args if src(p.func) == 'self._put_result' else p.args[1:])] == ['exc', 'idx', 'False'] for p in puts)
     chk.judge(good, 'C32.index', exf, 'synchronous raise -> _put_result(exc, idx, False) (directly or via submit past the recursion bound)', 'synchronous failure arm changed')
